@@ -203,6 +203,7 @@ type mnodeOpts struct {
 	boot     []*enode.Node
 	puppet   func(from enode.ID, msg []byte) []byte // non-nil: no PortalProtocol, scripted talk handler
 	noUtp    bool
+	gnet     bool // datagrams reach discv5 through the receive path of portalwire/gnet.go
 }
 
 func quietD5Config(key *ecdsa.PrivateKey, boot []*enode.Node) discover.Config {
@@ -230,7 +231,11 @@ func newMNode(w *mwire, o mnodeOpts) *mnode {
 		ln.Set(versEntry(o.versions))
 	}
 	ln.Node() // sign before any goroutine can race on the record
-	d5, err := discover.ListenV5(conn, ln, quietD5Config(key, o.boot))
+	var uc discover.UDPConn = conn
+	if o.gnet {
+		uc = newGnetOver(conn)
+	}
+	d5, err := discover.ListenV5(uc, ln, quietD5Config(key, o.boot))
 	if err != nil {
 		panic(err)
 	}
@@ -246,7 +251,7 @@ func newMNode(w *mwire, o mnodeOpts) *mnode {
 		conf.MaxUtpConnSize = o.utpLimit
 	}
 	if !o.noUtp {
-		n.Utp = portalwire.NewZenEthUtp(ctx, conf, d5, conn)
+		n.Utp = portalwire.NewZenEthUtp(ctx, conf, d5, uc)
 	}
 	if o.puppet != nil {
 		d5.RegisterTalkHandler(string(o.proto), func(n *enode.Node, addr *net.UDPAddr, msg []byte) []byte { return o.puppet(n.ID(), msg) })
@@ -265,7 +270,7 @@ func newMNode(w *mwire, o mnodeOpts) *mnode {
 	}
 	n.Q = make(chan *portalwire.ContentElement, qc)
 	vc := cache.NewCache[*enode.Node, uint8]().WithMaxKeys(1000).WithTTL(time.Hour)
-	p, err := portalwire.NewPortalProtocol(conf, o.proto, key, conn, ln, d5, n.Utp, o.store, n.Q, vc, portalwire.WithDisableTableInitCheckOption(true))
+	p, err := portalwire.NewPortalProtocol(conf, o.proto, key, uc, ln, d5, n.Utp, o.store, n.Q, vc, portalwire.WithDisableTableInitCheckOption(true))
 	if err != nil {
 		panic(err)
 	}
